@@ -245,6 +245,8 @@ def render_grammar(gi, case, with_cases=True, lite=False, ctxmix=False, customle
             lit = cstr(bytes.fromhex(inp["hex"]))
             opts = "parse_options{}.set_skip_whitespace(%s).set_skip_newline(%s)" % ("true" if inp["ws"] else "false", "true" if inp["nl"] else "false")
             out.append("struct c%d { static constexpr auto run() { utils::no_stream ns; return p.parse(%s, cstring_buffer(%s), ns); } };" % (k, opts, lit))
+            if k < 2:      # the same parse with the trace switched on: at compile time the only possible stream is no_stream, the result must not change (C16/C07)
+                out.append("struct cv%d { static constexpr auto run() { utils::no_stream ns; return p.parse(%s.set_verbose(), cstring_buffer(%s), ns); } };" % (k, opts, lit))
         out.append("void run_all() {")
         out.append("  auto p2 = new parser(G%d_ARGS);   // the same parser constructed at run time" % gi)
         for k, inp in enumerate(case["inputs"]):
@@ -252,6 +254,8 @@ def render_grammar(gi, case, with_cases=True, lite=False, ctxmix=False, customle
             n = len(bytes.fromhex(inp["hex"]))
             opts = "parse_options{}.set_skip_whitespace(%s).set_skip_newline(%s)" % ("true" if inp["ws"] else "false", "true" if inp["nl"] else "false")
             out.append('  { std::printf("CASE %s %d ce=%%d:%%llu", hh::probe<c%d>(0), (unsigned long long)hh::cvalue<c%d>(0)); parse_options o = %s; static const char lit[] = %s;' % (ns, k, k, k, opts, lit))
+            if k < 2:
+                out.append('    std::printf(" cev=%%d:%%llu", hh::probe<cv%d>(0), (unsigned long long)hh::cvalue<cv%d>(0));' % (k, k))
             out.append('    hh::rt("cs", p, o, cstring_buffer(lit)); hh::rt("sb", p, o, string_buffer(std::string(lit, %d))); hh::rt("sv", p, o, string_view_buffer(std::string_view(lit, %d)));' % (n, n))
             out.append('    { static const std::string big = std::string(lit, %d) + " \\n\\t  ;;zz"; hh::rt("svs", p, o, string_view_buffer(std::string_view(big.data(), %d))); }' % (n, n))
             out.append('    { auto* b0 = new string_buffer(std::string(lit, %d)); auto* b1 = new string_buffer(std::move(*b0)); string_buffer b2(*b1); *b0 = string_buffer("#gone#"); *b1 = string_buffer("#gone as well, and long enough for the heap#"); delete b0; delete b1; hh::rt("sbc", p, o, b2); }' % n)
@@ -422,6 +426,317 @@ template<class B> int rt_short(const B& b, std::string_view first, std::string_v
                     % (cstr(b), len(b), len(b), k, k, cxx_str(first), cxx_str(last), n, cxx_str(first), cxx_str(last), n, cxx_str(first), cxx_str(last), n, cxx_str(first), cxx_str(last), n, cxx_str(first), cxx_str(last), n))
     body.append("}); return 0; }")
     return "\n".join(parts + body)
+
+
+# ---- a BIG grammar (hundreds of LR(1) states, ~50 terms of three kinds, error rule): C08 / C12 ----------------------------------
+# stmt_i <- kw_i expr end_i ';'   for K contexts: the expression states are duplicated per context (different lookahead), so canonical LR(1)
+# needs about 14*K states - state numbers far beyond 255. Values are checked against an independent evaluation of the text in python.
+def big_grammar_source(K, texts):
+    kws = ["kw%02d" % i for i in range(K)]
+    ends = ["e%02d" % i if i % 3 else chr(ord('A') + i // 3) for i in range(K)]      # string terms and (every third) char terms
+    parts = [PRELUDE, "#include <vector>\nnamespace big {\nconstexpr char numpat[] = \"[0-9]+\"; constexpr regex_term<numpat> num(\"num\");\n"
+             "constexpr nterm<std::vector<long>> prog(\"prog\"); constexpr nterm<long> stmt(\"stmt\"), expr(\"expr\"), term(\"term\");\n"
+             "struct lim { static const size_t state_count_cap = %d; static const size_t max_sit_count_per_state_cap = %d; };" % (K * 20 + 150, (2 * K + 2) * (K + 3) + 200)]
+    for i in range(K):
+        if i % 3:
+            parts.append('constexpr string_term E%d("%s");' % (i, ends[i]))
+        else:
+            parts.append("constexpr char_term E%d('%s');" % (i, ends[i]))
+    rules = ["prog() >= ftors::create<std::vector<long>>{}",
+             "prog(prog, stmt) >= [](std::vector<long>&& l, long v) { l.push_back(v); return std::move(l); }",
+             "stmt(error, ';') >= ftors::val(-1L)",
+             "expr(term)",
+             "expr(expr, '+', term) >= [](long a, skip, long b) { return (a + b) % 1000; }",
+             "expr(expr, '<', term) >= [](long a, skip, long b) { return long(a < b); }",        # a term whose id is a prefix of the error symbol's and the eof symbol's ids
+             "term(num) >= [](std::string_view sv) { long v = 0; for (char c : sv) v = (v * 10 + (c - '0')) % 1000; return v; }",
+             "term('(', expr, ')') >= ftors::_e2",
+             "term('(', error, ')') >= ftors::val(995L)"]        # an error rule deep inside: its error-shift targets are discovered late (high state numbers)
+    for i in range(K):
+        rules.append('stmt("%s", expr, E%d, \';\') >= [](skip, long v, skip, skip) { return %dL + v; }' % (kws[i], i, i * 1000))
+        rules.append('stmt("%s", error, E%d, \';\') >= ftors::val(%dL)' % (kws[i], i, -(i + 2)))      # an error rule in every context: error-shift targets spread over the state numbers
+    terms = ["num", "'+'", "'<'", "'('", "')'", "';'"] + ['"%s"' % k for k in kws] + ["E%d" % i for i in range(K)]
+    parts.append("inline const auto& the_parser() { static const auto* p = new parser(prog, terms(%s), nterms(prog, stmt, expr, term), rules(\n  %s), use_generated_lexer{}, lim{}); return *p; }"
+                 % (", ".join(terms), ",\n  ".join(rules)))
+    parts.append("}")
+    body = ['int main() { hh::big_stack([] { try { const auto& p = big::the_parser(); std::ostringstream dg; p.write_diag_str(dg); std::string d = dg.str(); size_t pos = d.find("Number of states: "); std::printf("BIGINFO states=%s\\n", pos == std::string::npos ? "?" : d.substr(pos + 18, d.find("(", pos) - pos - 18).c_str());']
+    body.append('  auto one = [&](int k, auto&& buf, const char* tag) { try { std::ostringstream os; auto r = p.parse(parse_options{}, buf, os); unsigned long long h = 0x51ed; size_t n = 0; if (r.has_value()) { n = r.value().size(); for (long v : r.value()) h = hh::hcomb(h, (unsigned long long)(v + 7)); }'
+                ' size_t ne = 0; { std::string e = os.str(); for (size_t q = e.find("Syntax error"); q != std::string::npos; q = e.find("Syntax error", q + 1)) ++ne; } std::printf("%s %d acc=%d n=%zu h=%llu errs=%zu\\n", tag, k, r.has_value() ? 1 : 0, n, h, ne); } catch (const std::exception& e) { std::printf("%sX %d %s\\n", tag, k, e.what()); } };')
+    for k, t in enumerate(texts):
+        b = t["text"].encode()
+        body.append('  { static const char lit[] = %s; one(%d, string_view_buffer(std::string_view(lit, %d)), "BIG"); one(%d, string_buffer(std::string(lit, %d)), "BIGS"); one(%d, cstring_buffer(lit), "BIGC"); }' % (cstr(b), k, len(b), k, len(b), k))
+    body.append('  } catch (const std::exception& e) { std::printf("BIGEXC %s\\n", e.what()); } }); return 0; }')
+    # the constructor's frame holds the whole state analyzer: with these limits it needs more than the prelude's 512 MB of (virtual) stack
+    return "\n".join(parts + body).replace("size_t(1) << 29", "size_t(1) << 32"), kws, ends
+
+
+_BIG_TABLES = {}
+
+
+def big_tables(kws, ends):
+    """canonical LR(1) tables of the big grammar, built here from the textbook construction (independent of the library); no conflicts may arise"""
+    key = (tuple(kws), tuple(ends))
+    if key in _BIG_TABLES:
+        return _BIG_TABLES[key]
+    K = len(kws)
+    # rule = (lhs, rhs tuple, semantic tag)
+    R = [("S'", ("prog",), None), ("prog", (), ("list0",)), ("prog", ("prog", "stmt"), ("append",)), ("stmt", ("error", ";"), ("val", -1)),
+         ("expr", ("term",), ("e", 0)), ("expr", ("expr", "+", "term"), ("add",)), ("expr", ("expr", "<", "term"), ("lt",)), ("term", ("num",), ("num",)),
+         ("term", ("(", "expr", ")"), ("e", 1)), ("term", ("(", "error", ")"), ("val", 995))]
+    for i in range(K):
+        R.append(("stmt", (kws[i], "expr", "E%d" % i, ";"), ("ctx", i)))
+        R.append(("stmt", (kws[i], "error", "E%d" % i, ";"), ("val", -(i + 2))))
+    NT = {"S'", "prog", "stmt", "expr", "term"}
+    by_lhs = {}
+    for ri, r in enumerate(R):
+        by_lhs.setdefault(r[0], []).append(ri)
+    nullable = {"prog"}
+    first = {n: set() for n in NT}
+    changed = True
+    while changed:
+        changed = False
+        for lhs, rhs, _ in R:
+            for x in rhs:
+                add = first[x] if x in NT else {x}
+                if not add <= first[lhs]:
+                    first[lhs] |= add; changed = True
+                if x not in nullable:
+                    break
+    def first_of(seq, la):
+        out = set()
+        for x in seq:
+            if x in NT:
+                out |= first[x]
+                if x not in nullable:
+                    return out
+            else:
+                out.add(x); return out
+        out.add(la); return out
+    def closure(items):
+        items = set(items); work = list(items)
+        while work:
+            ri, dot, la = work.pop()
+            rhs = R[ri][1]
+            if dot < len(rhs) and rhs[dot] in NT:
+                for l2 in first_of(rhs[dot + 1:], la):
+                    for rj in by_lhs[rhs[dot]]:
+                        it = (rj, 0, l2)
+                        if it not in items:
+                            items.add(it); work.append(it)
+        return frozenset(items)
+    start = closure({(0, 0, "$")})
+    states = [start]; index = {start: 0}; trans = []
+    k = 0
+    while k < len(states):
+        st = states[k]; moves = {}
+        for ri, dot, la in st:
+            rhs = R[ri][1]
+            if dot < len(rhs):
+                moves.setdefault(rhs[dot], set()).add((ri, dot + 1, la))
+        tr = {}
+        for x in sorted(moves):
+            c = closure(moves[x])
+            if c not in index:
+                index[c] = len(states); states.append(c)
+            tr[x] = index[c]
+        trans.append(tr); k += 1
+    action = []
+    for si, st in enumerate(states):
+        a = {}
+        for x, t in trans[si].items():
+            if x not in NT:
+                a[x] = ("s", t)
+        for ri, dot, la in st:
+            if dot == len(R[ri][1]):
+                act = ("acc",) if ri == 0 else ("r", ri)
+                if la in a and a[la] != act:
+                    raise RuntimeError("big grammar: conflict in the reference tables")
+                a[la] = act
+        action.append(a)
+    _BIG_TABLES[key] = (R, NT, trans, action)
+    return _BIG_TABLES[key]
+
+
+def big_eval(text, kws, ends):
+    """independent evaluation: textbook canonical LR(1) tables (built in python) driven by the README's recovery algorithm: on an error report it, then with the
+    error symbol as the lookahead reduce/pop until it can be shifted, shift it, discard terms until one has an action, continue"""
+    import re
+    toks = []
+    pos = 0
+    tok_re = re.compile(r"\s*(kw\d\d|e\d\d|[A-Z]|[0-9]+|[+<();])")
+    while pos < len(text):
+        m = tok_re.match(text, pos)
+        if not m:
+            if text[pos:].strip() == "":
+                break
+            return None          # lexical error: not generated
+        toks.append(m.group(1)); pos = m.end()
+    M = (1 << 64) - 1
+    def mix64(x):
+        x = (x + 0x9e3779b97f4a7c15) & M; x = ((x ^ (x >> 30)) * 0xbf58476d1ce4e5b9) & M; x = ((x ^ (x >> 27)) * 0x94d049bb133111eb) & M; return x ^ (x >> 31)
+    def hcomb(h, v): return mix64((h * 0x100000001b3 + v + 0x632be59bd9b4e019) & M)
+    R, NT, trans, action = big_tables(kws, ends)
+    def sym(t):
+        if t == "$": return "$"
+        if t.isdigit(): return "num"
+        if t in ends: return "E%d" % ends.index(t)
+        return t
+    toks.append("$")
+    st = [0]; vs = []; p = 0; errs = 0; recovering = False; consuming = False
+    depth = [1]
+    FAIL = lambda: {"acc": 0, "n": 0, "h": 0x51ed, "errs": errs, "depth": depth[0]}
+    steps = 0
+    while True:
+        steps += 1
+        if steps > 200000: raise RuntimeError("big_eval: runaway")
+        if len(st) > depth[0]: depth[0] = len(st)
+        la = "error" if recovering else sym(toks[p])
+        act = action[st[-1]].get(la)
+        if act is None:
+            if consuming:
+                if toks[p] == "$": return FAIL()
+                p += 1; continue
+            if not recovering:
+                errs += 1; recovering = True; continue
+            st.pop()
+            if vs: vs.pop()
+            if not st: return FAIL()
+            continue
+        consuming = False
+        if act[0] == "s":
+            if la == "error":
+                st.append(act[1]); vs.append(None); recovering = False; consuming = True
+            else:
+                st.append(act[1]); vs.append(toks[p]); p += 1
+        elif act[0] == "r":
+            lhs, rhs, tag = R[act[1]]
+            n = len(rhs)
+            args = vs[len(vs) - n:] if n else []
+            if n:
+                del vs[len(vs) - n:]; del st[len(st) - n:]
+            if tag[0] == "list0": v = []
+            elif tag[0] == "append": v = args[0] + [args[1]]
+            elif tag[0] == "val": v = tag[1]
+            elif tag[0] == "e": v = args[tag[1]]
+            elif tag[0] == "add": v = (args[0] + args[2]) % 1000
+            elif tag[0] == "lt": v = 1 if args[0] < args[2] else 0
+            elif tag[0] == "num":
+                v = 0
+                for c in args[0]: v = (v * 10 + int(c)) % 1000
+            elif tag[0] == "ctx": v = tag[1] * 1000 + args[1]
+            st.append(trans[st[-1]][lhs]); vs.append(v)
+        else:
+            out = vs[0]
+            h = 0x51ed
+            for v in out: h = hcomb(h, (v + 7) & M)
+            return {"acc": 1, "n": len(out), "h": h, "errs": errs, "depth": depth[0]}
+
+
+def big_texts(seed, n, K, kws, ends):
+    import random
+    rnd = random.Random(seed * 77 + 5)
+    def expr(d):
+        k = rnd.randint(1, 3); ps = []
+        for _ in range(k):
+            if d < 4 and rnd.random() < 0.35:
+                ps += ["("] + expr(d + 1) + [")"]
+            else:
+                ps.append(str(rnd.randint(0, 9999)))
+            ps.append("+" if rnd.random() < 0.8 else "<")
+        return ps[:-1]
+    out = []
+    for _ in range(n):
+        stmts = []
+        for _ in range(rnd.randint(1, 8)):
+            i = rnd.randrange(K); ex = expr(0); tk = [kws[i]] + ex + [ends[i], ";"]
+            r = rnd.random()
+            if r < 0.06: tk[-2] = ends[(i + 1 + rnd.randrange(K - 1)) % K]     # terminator of another context
+            elif r < 0.10: del tk[rnd.randrange(len(tk))]                        # a piece missing (anywhere, also inside brackets)
+            elif r < 0.30:                                                       # junk somewhere inside the expression: the deeper the bracket, the later its error state was numbered
+                junk = rnd.choice(["+", "+ +", "7 7", kws[rnd.randrange(K)], ends[rnd.randrange(K)], "( )", "(", "7 ("])
+                tk.insert(1 + rnd.randrange(len(ex) + 1), junk)
+            elif r < 0.33: tk.insert(rnd.randrange(len(tk) + 1), rnd.choice([")", ";", "7"]))
+            stmts.append(" ".join(tk) if rnd.random() < 0.7 else "".join(t if t[0] in "+();" else " " + t + " " for t in tk))
+        text = rnd.choice(["", " ", "\n"]).join(stmts)
+        if rnd.random() < 0.05: text = text.rstrip("; ")                         # input ends while a statement is open
+        out.append({"text": text})
+    return out
+
+
+def run_big(pid, tier, seed, work, viol_dir):
+    K = 30
+    kws = ["kw%02d" % i for i in range(K)]; ends = ["e%02d" % i if i % 3 else chr(ord('A') + i // 3) for i in range(K)]
+    texts = [t for t in big_texts(seed, {"quick": 60, "thorough": 600}[tier], K, kws, ends) if big_eval(t["text"], kws, ends) is not None]
+    src_text, kws, ends = big_grammar_source(K, texts)
+    src = os.path.join(work, "big.cpp")
+    open(src, "w").write(src_text)
+    violations = []; evaluations = 0; nontrivial = set(); notes = []; labels = {}
+    res = compile_and_run(src, "clang++" if (seed % 2) else "g++")
+    cxx = "clang++" if (seed % 2) else "g++"
+    if not res["compiled"]:
+        if res.get("timeout"):
+            notes.append("compile of big.cpp hit the time ceiling (inconclusive)")
+        else:
+            vp = os.path.join(viol_dir, "%s_compile_big.json" % pid)
+            json.dump({"check": pid, "kind": "programbig", "compiler": cxx, "source": src_text, "what": "generated program does not compile", "log": res["log"], "texts": texts, "K": K}, open(vp, "w"))
+            errs = [l for l in res["log"].splitlines() if "error" in l][:1]
+            violations.append(("a grammar of %d rules / %d terms with custom limits does not compile with %s: %s" % (K + 7, 2 * K + 5, cxx, errs[0][:200] if errs else ""), vp))
+        return violations, evaluations, nontrivial, notes, labels
+    out = res["out"]
+    info = [l for l in out.splitlines() if l.startswith("BIGINFO")]
+    exc = [l for l in out.splitlines() if l.startswith("BIGEXC")]
+    if exc or not info:
+        vp = os.path.join(viol_dir, "%s_big_construct.json" % pid)
+        json.dump({"check": pid, "kind": "programbig", "compiler": cxx, "source": src_text, "what": "construction failed", "texts": texts, "K": K}, open(vp, "w"))
+        violations.append(("a conflict-free grammar of %d rules / %d terms could not be constructed with limits that suffice (%s): %s" % (K + 7, 2 * K + 5, cxx, exc[0][7:200] if exc else "no output, rc=%s" % res.get("rc")), vp))
+        return violations, evaluations, nontrivial, notes, labels
+    try:
+        labels["big-grammar:lr1-states"] = int(info[0].split("=")[1])
+    except Exception:
+        pass
+    got = {}; gotS = {}; gotC = {}; threwS = {}; threwC = {}
+    for ln in out.splitlines():
+        for tag, dst in (("BIG ", got), ("BIGS ", gotS), ("BIGC ", gotC)):
+            if ln.startswith(tag):
+                w = ln.split(); dst[int(w[1])] = {f.split("=")[0]: int(f.split("=")[1]) for f in w[2:]}
+        for tag, dst in (("BIGSX ", threwS), ("BIGCX ", threwC)):
+            if ln.startswith(tag):
+                w = ln.split(" ", 2); dst[int(w[1])] = w[2] if len(w) > 2 else ""
+    threw = {}
+    for ln in out.splitlines():
+        if ln.startswith("BIGX "):
+            w = ln.split(" ", 2); threw[int(w[1])] = w[2] if len(w) > 2 else ""
+    for k, t in enumerate(texts):
+        evaluations += 1
+        want = big_eval(t["text"], kws, ends); d = got.get(k); what = None
+        if k in threw:
+            what = "big grammar: parse() threw '%s'" % threw[k][:120]
+        elif d is None:
+            what = "program produced no result line (crashed?) rc=%s" % res.get("rc")
+        elif d["acc"] != want["acc"]:
+            what = "big grammar: " + ("recovery failed although the input continues with a synchronising ';'" if want["acc"] else "a parse that runs out of input while discarding returned a value")
+        elif want["acc"] and (d["n"] != want["n"] or d["h"] != want["h"]):
+            what = "big grammar: values kept/discarded by recovery (or computed by the rules) differ from the independent evaluation"
+        elif d["errs"] != want["errs"]:
+            what = "big grammar: %d syntax errors reported, %d expected" % (d["errs"], want["errs"])
+        if not what:
+            # the other buffer kinds must give the same result; the fixed stacks of cstring_buffer<N> hold N + 1 empty rule + 1 entries (F11 scope: deeper is excluded)
+            for kind, gk, tk in (("string_buffer", gotS, threwS), ("cstring_buffer", gotC, threwC)):
+                if k in tk:
+                    if kind == "cstring_buffer" and "out of range" in tk[k] and want["depth"] > len(t["text"]) + 3:
+                        labels["big-grammar:excluded-F11"] = labels.get("big-grammar:excluded-F11", 0) + 1
+                        continue
+                    what = "big grammar: parse through %s threw '%s' while string_view_buffer gave a result" % (kind, tk[k][:100]); break
+                if gk.get(k) != d:
+                    what = "big grammar: %s and string_view_buffer give different results for the same text" % kind; break
+        if what:
+            vp = os.path.join(viol_dir, "%s_big_%s.json" % (pid, hashlib.sha1(t["text"].encode()).hexdigest()[:10]))
+            json.dump({"check": pid, "kind": "programbig", "compiler": cxx, "what": what, "observed": d, "expected": want, "texts": [t], "K": K, "source": big_grammar_source(K, [t])[0]}, open(vp, "w"))
+            violations.append((what + " (%s)" % cxx, vp))
+            continue
+        if want["errs"] or want["n"] >= 3:
+            nontrivial.add(("big", t["text"]))
+        labels["big-grammar:" + ("recovered" if want["errs"] and want["acc"] else "failed" if not want["acc"] else "clean")] = labels.get("big-grammar:" + ("recovered" if want["errs"] and want["acc"] else "failed" if not want["acc"] else "clean"), 0) + 1
+    return violations, evaluations, nontrivial, notes, labels
 
 # ---- C17b: rules that mention symbols which are not declared ------------------------------------------------------
 def render_c17b(cases):
@@ -612,7 +927,7 @@ def parse_case_lines(out):
     return res
 
 
-def emit_cases(seed, n, work, spelling=True, only_class=None, named_terms=False, always_spelled=False):
+def emit_cases(seed, n, work, spelling=True, only_class=None, named_terms=False, always_spelled=False, same_names=False):
     ok, eg, log = BUILD.ensure_emitter("e_grammar", REPO)
     if not ok:
         return None, log
@@ -626,6 +941,12 @@ def emit_cases(seed, n, work, spelling=True, only_class=None, named_terms=False,
         env["EMIT_NAMED_TERMS"] = "1"
     if always_spelled:
         env["EMIT_ALWAYS_SPELLED"] = "1"
+    if same_names:
+        env["EMIT_SAME_NAMES"] = "1"; env["EMIT_NAMED_TERMS"] = "1"
+    if os.environ.get("_EMIT_PID") in ("C09", "C10"):
+        env["EMIT_GIANT_LEXEME"] = "1"
+    if os.environ.get("_EMIT_PID") == "C18":
+        env["EMIT_LONG_NAMES"] = "1"
     if os.environ.get("_EMIT_PID") == "C10":
         env["EMIT_NEWLINE_TERM"] = "1"
     if os.environ.get("_EMIT_PID") == "C07":
@@ -639,6 +960,11 @@ def emit_cases(seed, n, work, spelling=True, only_class=None, named_terms=False,
 def run(pid, tier, seed, work, viol_dir, known_ids=()):
     t0 = time.time()
     excluded = {}
+    if pid in ("C08", "C12"):
+        violations, evaluations, nontrivial, notes, labels = run_big(pid, tier, seed, work, viol_dir)
+        for n in notes:
+            print("NOTE:", n)
+        return (1 if violations else 0), {"evaluations": evaluations, "nontrivial": len(nontrivial), "labels": labels, "samples": [{"big-grammar": "30 statement contexts kwNN expr eNN ';', each with an error rule, bracket error rule, list-level error rule; see vlib/compiled.py big_grammar_source"}], "violations": violations, "notes": notes, "wall": time.time() - t0, "programs": 1, "excluded_known": {}}
     if pid == "C03":
         ok, er, log = BUILD.ensure_emitter("e_regex", REPO)
         if not ok:
@@ -657,7 +983,7 @@ def run(pid, tier, seed, work, viol_dir, known_ids=()):
               "C01": {"quick": 16, "thorough": 160}, "C02": {"quick": 16, "thorough": 160}, "C05": {"quick": 16, "thorough": 160}, "C09": {"quick": 16, "thorough": 160}, "C18": {"quick": 12, "thorough": 120}, "C10": {"quick": 12, "thorough": 120}, "C11": {"quick": 12, "thorough": 120}, "C16": {"quick": 12, "thorough": 120}}[pid][tier]
     os.environ["_EMIT_PID"] = pid
     if pid != "C03":
-      cases, log = emit_cases((seed + {"C01": 101, "C02": 202, "C05": 505, "C09": 909, "C18": 1818, "C10": 1010, "C11": 1111, "C16": 1616}.get(pid, 0)) % 0x7FFFFFFF or 1, ncases, work, spelling=(pid in ("C07", "C01", "C02", "C05", "C09", "C18", "C10", "C11", "C16")), only_class=(1 if pid == "C05" else None), named_terms=(pid == "C09"), always_spelled=(pid in ("C18", "C10", "C11", "C16")))
+      cases, log = emit_cases((seed + {"C01": 101, "C02": 202, "C05": 505, "C09": 909, "C18": 1818, "C10": 1010, "C11": 1111, "C16": 1616}.get(pid, 0)) % 0x7FFFFFFF or 1, ncases, work, spelling=(pid in ("C07", "C01", "C02", "C05", "C09", "C18", "C10", "C11", "C16")), only_class=(1 if pid == "C05" else None), named_terms=(pid == "C09"), always_spelled=(pid in ("C18", "C10", "C11", "C16")), same_names=(pid in ("C01", "C02")))
     if cases is None:
         print("HARNESS-BUILD-FAILED engine=e_grammar (emit)")
         print(log)
@@ -677,168 +1003,180 @@ def run(pid, tier, seed, work, viol_dir, known_ids=()):
     VERBOSE_RUNS = pid == "C16"
     ctxmix = pid == "C05"
     customlex = pid == "C18"
-    if pid == "C07" or lite:
-        per_tu = 1
-        groups = [list(range(i, min(i + per_tu, len(cases)))) for i in range(0, len(cases), per_tu)]
-        jobs = []
-        for gi, idxs in enumerate(groups):
-            src = os.path.join(work, "prog_%d.cpp" % gi)
-            open(src, "w").write(render_program(cases, idxs, lite, ctxmix, customlex))
-            for cxx in (("clang++",) if (lite and gi % 2) else ("g++",) if lite else ("g++", "clang++")):
-                jobs.append((gi, idxs, src, cxx))
-        with ThreadPoolExecutor(max_workers=16) as ex:
-            results = list(ex.map(lambda j: (j, compile_and_run(j[2], j[3])), jobs))
-        for (gi, idxs, src, cxx), res in results:
-            if not res["compiled"]:
-                if res.get("timeout"):
-                    notes.append("compile of %s with %s hit the time ceiling (inconclusive)" % (os.path.basename(src), cxx))
-                    continue
-                vp = os.path.join(viol_dir, "%s_compile_%s_%s.json" % (pid, cxx.replace("+", "x"), hashlib.sha1(open(src, "rb").read()).hexdigest()[:10]))
-                json.dump({"check": pid, "kind": "program", "compiler": cxx, "source": open(src).read(), "what": "generated program does not compile", "log": res["log"], "cases": [cases[i] for i in idxs], "idxs": idxs}, open(vp, "w"))
-                errs = [l for l in res["log"].splitlines() if "error" in l][:1]
-                violations.append(("program that parses at compile time does not compile with %s: %s" % (cxx, errs[0][:200] if errs else ""), vp))
-                continue
-            got = parse_case_lines(res["out"])
-            for gidx in idxs:
-                case = cases[gidx]
-                for k, inp in enumerate(case["inputs"]):
-                    evaluations += 1
-                    key = ("g%d" % gidx, k)
-                    want_acc = 1 if inp["accept"] else 0
-                    want_val = inp["value"] if inp["accept"] else "0"
-                    want_msg = inp["messages_hex"]
-                    d = got.get(key)
-                    what = None
-                    # known finding F11: cstring_buffer<N> selects fixed stacks of N + EmptyRulesCount + 1 entries
-                    empty_rules = sum(1 for r in case["grammar"]["rules"] if not r["rhs"])
-                    f11 = "F11" in known_ids and inp.get("max_depth", 0) > len(bytes.fromhex(inp["hex"])) + 1 + empty_rules + 1
-                    if d is None:
-                        what = "program produced no result line (crashed?) rc=%s" % res.get("rc")
-                    elif f11 and d["ce"].split(":")[0] == "-1" and d["cs"].startswith("EXC") and d["r_cs"].startswith("EXC") and all(
-                            d[tag].split(":")[0] == str(want_acc) and (not want_acc or d[tag].split(":")[1] == want_val) and d[tag].split(":")[2] == want_msg for tag in ("sb", "sv", "svs", "sbc", "r_sb", "r_sv")):
-                        excluded["F11"] = excluded.get("F11", 0) + 1
-                        continue
-                    elif lite:
-                        for tag in ("sb", "sv", "svs"):
-                            a, v, m = d[tag].split(":")
-                            if a == "EXC":
-                                what = "run-time parse (%s) threw: %s (%s)" % (tag, bytes.fromhex(m).decode("utf-8", "replace"), cxx)
-                            elif int(a) != want_acc:
-                                what = ("a derivable input was rejected" if want_acc else "an underivable input was accepted") + " by a parser written in the DSL (%s, %s)" % (tag, cxx)
-                            elif pid == "C02" and want_acc and v != want_val:
-                                what = "result differs from the bottom-up evaluation of the derivation tree (%s, %s)" % (tag, cxx)
-                            elif pid == "C05" and want_acc and v != want_val:
-                                what = "expression grouped against the documented precedence/associativity rules in a parser written in the DSL (%s, %s)" % (tag, cxx)
-                            elif pid == "C09" and m != want_msg:
-                                what = "error report differs from the reference (%s, %s)" % (tag, cxx)
-                            elif pid == "C16" and tag in ("sb", "sv"):
-                                what = check_verbose(d, tag, a, v, m, inp, cxx)
-                            elif pid == "C10" and m != want_msg:
-                                what = "a position in an error message is not the true line/column (%s, %s)" % (tag, cxx)
-                            elif pid == "C10" and d.get("p" + tag) != inp.get("posdigest"):
-                                what = "a term value handed to a rule functor does not carry the true line/column of its first character (digest over all functor calls; get_sp() and get_line()/get_column(); %s, %s)" % (tag, cxx)
-                            elif pid == "C18" and ((want_acc and v != want_val) or m != want_msg):
-                                what = "a parser over custom terms with a hand-written longest-match lexer (use_lexer) gives %s than the reference gives for the generated lexer (%s, %s)" % ("another value" if (want_acc and v != want_val) else "other messages", tag, cxx)
-                            if what:
-                                break
-                    else:
-                        ce = d["ce"].split(":")
-                        if ce[0] == "-1":
-                            what = "parsing this input during constant evaluation is not a constant expression (%s)" % cxx
-                        elif int(ce[0]) != want_acc or (want_acc and ce[1] != want_val):
-                            what = "compile-time result differs from the reference (%s)" % cxx
-                        else:
-                            for tag in ("cs", "sb", "sv", "svs", "sbc", "r_cs", "r_sb", "r_sv"):
-                                a, v, m = d[tag].split(":")
-                                if a == "EXC":
-                                    what = "run-time parse (%s) threw: %s (%s)" % (tag, bytes.fromhex(m).decode("utf-8", "replace"), cxx)
-                                    break
-                                if int(a) != want_acc or (want_acc and v != want_val):
-                                    what = "run-time result (%s) differs from the compile-time result / reference (%s)" % (tag, cxx)
-                                    break
-                                if m != want_msg:
-                                    what = "run-time messages (%s) differ from the reference (%s)" % (tag, cxx)
-                                    break
-                    if what:
-                        vp = os.path.join(viol_dir, "%s_%s.json" % (pid, hashlib.sha1((json.dumps(case["grammar"]) + inp["hex"] + cxx).encode()).hexdigest()[:12]))
-                        one = dict(case)
-                        one["inputs"] = [inp]
-                        json.dump({"check": pid, "kind": "program", "lite": lite, "compiler": cxx, "what": what, "observed": d, "cases": [one], "idxs": [0], "source": render_program([one], [0], lite, ctxmix, customlex)}, open(vp, "w"))
-                        violations.append((what, vp))
-                        continue
-                    ntoks = inp.get("tokens", 0)
-                    if (not inp["accept"]) or ntoks >= 5:
-                        nontrivial.add((case["grammar"]["text"], inp["hex"], inp["ws"], inp["nl"]))
-                        lab("kind:" + inp["kind"])
-                    lab("compiler:" + cxx)
-                if pid == "C11":
-                    evaluations += 1
-                    dline = [ln for ln in res["out"].splitlines() if ln.startswith("DIAG g%d " % gidx)]
-                    what11 = None
-                    if not dline:
-                        what11 = "program printed no diagnostic text (crashed?)"
-                    else:
-                        text = bytes.fromhex(dline[0].split()[2]).decode("latin-1")
-                        what11 = check_diag_text(text, case)
-                    if what11:
-                        vp = os.path.join(viol_dir, "%s_diag_%s.json" % (pid, hashlib.sha1((json.dumps(case["grammar"]) + cxx).encode()).hexdigest()[:12]))
-                        one = dict(case); one["inputs"] = case["inputs"][:1]
-                        json.dump({"check": pid, "kind": "program", "lite": lite, "compiler": cxx, "what": what11 + " (%s)" % cxx, "cases": [one], "idxs": [0], "source": render_program([one], [0], lite, ctxmix, customlex)}, open(vp, "w"))
-                        violations.append((what11 + " (%s)" % cxx, vp))
-                    else:
-                        nontrivial.add(("diag", case["grammar"]["text"], cxx))
-                lab("class:" + case["class"])
-                if case.get("spelling"):
-                    lab("spelled-terms")
-                    for sp in case["spelling"]:
-                        lab("term-kind:" + {"c": "char", "s": "string", "r": "regex(named)", "R": "regex(unnamed)", "t": "typed(char)", "T": "typed(named regex)"}[sp["kind"]])
-        for case in cases[:3]:
-            samples.append({"grammar": case["grammar"]["text"], "class": case["class"], "inputs": [i["text"] for i in case["inputs"]][:8]})
-        if pid == "C07":
-            # results that KEEP views into the caller's buffer: the same agreement (constant evaluation / three run-time buffers / two overloads), plus
-            # "the views point into the caller's buffer and read the right text"
-            texts = gen_c07v_texts(seed, {"quick": 24, "thorough": 200}[tier])
-            vsrc = os.path.join(work, "views.cpp")
-            open(vsrc, "w").write(render_c07v(texts))
-            for cxx in ("g++", "clang++"):
-                res = compile_and_run(vsrc, cxx)
-                if not res["compiled"]:
-                    if res.get("timeout"):
-                        notes.append("compile of views.cpp with %s hit the time ceiling (inconclusive)" % cxx)
-                        continue
-                    vp = os.path.join(viol_dir, "C07_compile_views_%s.json" % cxx.replace("+", "x"))
-                    json.dump({"check": pid, "kind": "program07v", "compiler": cxx, "source": open(vsrc).read(), "what": "generated program does not compile", "log": res["log"], "texts": texts}, open(vp, "w"))
-                    errs = [l for l in res["log"].splitlines() if "error" in l][:1]
-                    violations.append(("a program whose parse result keeps string_view lexemes of the caller's buffer does not compile with %s: %s" % (cxx, errs[0][:200] if errs else ""), vp))
-                    continue
-                got = {}
-                for ln in res["out"].splitlines():
-                    if ln.startswith("VIEW "):
-                        w = ln.split()
-                        got[int(w[1])] = {f.split("=")[0]: int(f.split("=")[1]) for f in w[2:]}
-                for k, t in enumerate(texts):
-                    evaluations += 1
-                    want = 2 if t["ok"] else 0
-                    d = got.get(k)
-                    what = None
-                    if d is None:
-                        what = "program produced no result line (crashed?) rc=%s" % res.get("rc")
-                    elif d["ce"] == -1:
-                        what = "parsing a static cstring_buffer and reading the lexeme views the result keeps is not a constant expression (%s)" % cxx
-                    else:
-                        for tag, name in (("ce", "constant evaluation"), ("cs", "cstring_buffer"), ("sb", "string_buffer"), ("sv", "string_view_buffer"), ("cs0", "parse(cstring_buffer)"), ("sb0", "parse(string_buffer)")):
-                            if d[tag] != want:
-                                what = "%s: %s (%s)" % (name, {0: "a text of the language was rejected", 1: "the lexeme views kept by the result do not point into the caller's buffer / read other text", 2: "a text outside the language was accepted", 3: "parse threw"}[d[tag]], cxx)
-                                break
-                    if what:
-                        vp = os.path.join(viol_dir, "C07_views_%s_%s.json" % (cxx.replace("+", "x"), hashlib.sha1(t["text"].encode()).hexdigest()[:10]))
-                        json.dump({"check": pid, "kind": "program07v", "compiler": cxx, "what": what, "observed": d, "texts": [t], "source": render_c07v([t])}, open(vp, "w"))
-                        violations.append((what, vp))
-                        continue
-                    if len(t["words"]) >= 2 or not t["ok"]:
-                        nontrivial.add(("views", t["text"]))
-                lab("views-program:" + cxx)
-    elif pid == "C03":
+    # C16 gets a second pass over a few of its grammars rendered as full programs (constexpr-constructed parser, constexpr parses): the verbose / non-verbose pair at compile time
+    passes = [lite] + ([False] if pid == "C16" else [])
+    all_cases = cases
+    for pass_no, lite in enumerate(passes):
+      cases = all_cases if pass_no == 0 else all_cases[:{"quick": 3, "thorough": 24}[tier]]
+      if pass_no:
+          VERBOSE_RUNS = False
+      if pid == "C07" or pid in ("C01", "C02", "C05", "C09", "C18", "C10", "C11", "C16"):
+          per_tu = 1
+          groups = [list(range(i, min(i + per_tu, len(cases)))) for i in range(0, len(cases), per_tu)]
+          jobs = []
+          for gi, idxs in enumerate(groups):
+              src = os.path.join(work, "prog_%d.cpp" % gi)
+              open(src, "w").write(render_program(cases, idxs, lite, ctxmix, customlex))
+              for cxx in (("clang++",) if (lite and gi % 2) else ("g++",) if lite else ("g++", "clang++")):
+                  jobs.append((gi, idxs, src, cxx))
+          with ThreadPoolExecutor(max_workers=16) as ex:
+              results = list(ex.map(lambda j: (j, compile_and_run(j[2], j[3])), jobs))
+          for (gi, idxs, src, cxx), res in results:
+              if not res["compiled"]:
+                  if res.get("timeout"):
+                      notes.append("compile of %s with %s hit the time ceiling (inconclusive)" % (os.path.basename(src), cxx))
+                      continue
+                  vp = os.path.join(viol_dir, "%s_compile_%s_%s.json" % (pid, cxx.replace("+", "x"), hashlib.sha1(open(src, "rb").read()).hexdigest()[:10]))
+                  json.dump({"check": pid, "kind": "program", "compiler": cxx, "source": open(src).read(), "what": "generated program does not compile", "log": res["log"], "cases": [cases[i] for i in idxs], "idxs": idxs}, open(vp, "w"))
+                  errs = [l for l in res["log"].splitlines() if "error" in l][:1]
+                  violations.append(("program that parses at compile time does not compile with %s: %s" % (cxx, errs[0][:200] if errs else ""), vp))
+                  continue
+              got = parse_case_lines(res["out"])
+              for gidx in idxs:
+                  case = cases[gidx]
+                  for k, inp in enumerate(case["inputs"]):
+                      evaluations += 1
+                      key = ("g%d" % gidx, k)
+                      want_acc = 1 if inp["accept"] else 0
+                      want_val = inp["value"] if inp["accept"] else "0"
+                      want_msg = inp["messages_hex"]
+                      d = got.get(key)
+                      what = None
+                      # known finding F11: cstring_buffer<N> selects fixed stacks of N + EmptyRulesCount + 1 entries
+                      empty_rules = sum(1 for r in case["grammar"]["rules"] if not r["rhs"])
+                      f11 = "F11" in known_ids and inp.get("max_depth", 0) > len(bytes.fromhex(inp["hex"])) + 1 + empty_rules + 1
+                      if d is None:
+                          what = "program produced no result line (crashed?) rc=%s" % res.get("rc")
+                      elif f11 and d["ce"].split(":")[0] == "-1" and d["cs"].startswith("EXC") and d["r_cs"].startswith("EXC") and all(
+                              d[tag].split(":")[0] == str(want_acc) and (not want_acc or d[tag].split(":")[1] == want_val) and d[tag].split(":")[2] == want_msg for tag in ("sb", "sv", "svs", "sbc", "r_sb", "r_sv")):
+                          excluded["F11"] = excluded.get("F11", 0) + 1
+                          continue
+                      elif lite:
+                          for tag in ("sb", "sv", "svs"):
+                              a, v, m = d[tag].split(":")
+                              if a == "EXC":
+                                  what = "run-time parse (%s) threw: %s (%s)" % (tag, bytes.fromhex(m).decode("utf-8", "replace"), cxx)
+                              elif int(a) != want_acc:
+                                  what = ("a derivable input was rejected" if want_acc else "an underivable input was accepted") + " by a parser written in the DSL (%s, %s)" % (tag, cxx)
+                              elif pid == "C02" and want_acc and v != want_val:
+                                  what = "result differs from the bottom-up evaluation of the derivation tree (%s, %s)" % (tag, cxx)
+                              elif pid == "C05" and want_acc and v != want_val:
+                                  what = "expression grouped against the documented precedence/associativity rules in a parser written in the DSL (%s, %s)" % (tag, cxx)
+                              elif pid == "C09" and m != want_msg:
+                                  what = "error report differs from the reference (%s, %s)" % (tag, cxx)
+                              elif pid == "C16" and tag in ("sb", "sv"):
+                                  what = check_verbose(d, tag, a, v, m, inp, cxx)
+                              elif pid == "C10" and m != want_msg:
+                                  what = "a position in an error message is not the true line/column (%s, %s)" % (tag, cxx)
+                              elif pid == "C10" and d.get("p" + tag) != inp.get("posdigest"):
+                                  what = "a term value handed to a rule functor does not carry the true line/column of its first character (digest over all functor calls; get_sp() and get_line()/get_column(); %s, %s)" % (tag, cxx)
+                              elif pid == "C18" and ((want_acc and v != want_val) or m != want_msg):
+                                  what = "a parser over custom terms with a hand-written longest-match lexer (use_lexer) gives %s than the reference gives for the generated lexer (%s, %s)" % ("another value" if (want_acc and v != want_val) else "other messages", tag, cxx)
+                              if what:
+                                  break
+                      else:
+                          ce = d["ce"].split(":")
+                          if ce[0] != "-1" and "cev" in d and d["cev"] != d["ce"]:
+                              what = "the same compile-time parse with verbose switched on %s (%s)" % ("is not a constant expression" if d["cev"].startswith("-1") else "gives another result", cxx)
+                          elif pid == "C16":
+                              pass           # C16 looks only at the verbose/non-verbose pair here; everything else about these programs is C07's business
+                          elif ce[0] == "-1":
+                              what = "parsing this input during constant evaluation is not a constant expression (%s)" % cxx
+                          elif int(ce[0]) != want_acc or (want_acc and ce[1] != want_val):
+                              what = "compile-time result differs from the reference (%s)" % cxx
+                          else:
+                              for tag in ("cs", "sb", "sv", "svs", "sbc", "r_cs", "r_sb", "r_sv"):
+                                  a, v, m = d[tag].split(":")
+                                  if a == "EXC":
+                                      what = "run-time parse (%s) threw: %s (%s)" % (tag, bytes.fromhex(m).decode("utf-8", "replace"), cxx)
+                                      break
+                                  if int(a) != want_acc or (want_acc and v != want_val):
+                                      what = "run-time result (%s) differs from the compile-time result / reference (%s)" % (tag, cxx)
+                                      break
+                                  if m != want_msg:
+                                      what = "run-time messages (%s) differ from the reference (%s)" % (tag, cxx)
+                                      break
+                      if what:
+                          vp = os.path.join(viol_dir, "%s_%s.json" % (pid, hashlib.sha1((json.dumps(case["grammar"]) + inp["hex"] + cxx).encode()).hexdigest()[:12]))
+                          one = dict(case)
+                          one["inputs"] = [inp]
+                          json.dump({"check": pid, "kind": "program", "lite": lite, "compiler": cxx, "what": what, "observed": d, "cases": [one], "idxs": [0], "source": render_program([one], [0], lite, ctxmix, customlex)}, open(vp, "w"))
+                          violations.append((what, vp))
+                          continue
+                      ntoks = inp.get("tokens", 0)
+                      if (not inp["accept"]) or ntoks >= 5:
+                          nontrivial.add((case["grammar"]["text"], inp["hex"], inp["ws"], inp["nl"]))
+                          lab("kind:" + inp["kind"])
+                      lab("compiler:" + cxx)
+                  if pid == "C11":
+                      evaluations += 1
+                      dline = [ln for ln in res["out"].splitlines() if ln.startswith("DIAG g%d " % gidx)]
+                      what11 = None
+                      if not dline:
+                          what11 = "program printed no diagnostic text (crashed?)"
+                      else:
+                          text = bytes.fromhex(dline[0].split()[2]).decode("latin-1")
+                          what11 = check_diag_text(text, case)
+                      if what11:
+                          vp = os.path.join(viol_dir, "%s_diag_%s.json" % (pid, hashlib.sha1((json.dumps(case["grammar"]) + cxx).encode()).hexdigest()[:12]))
+                          one = dict(case); one["inputs"] = case["inputs"][:1]
+                          json.dump({"check": pid, "kind": "program", "lite": lite, "compiler": cxx, "what": what11 + " (%s)" % cxx, "cases": [one], "idxs": [0], "source": render_program([one], [0], lite, ctxmix, customlex)}, open(vp, "w"))
+                          violations.append((what11 + " (%s)" % cxx, vp))
+                      else:
+                          nontrivial.add(("diag", case["grammar"]["text"], cxx))
+                  lab("class:" + case["class"])
+                  if case.get("spelling"):
+                      lab("spelled-terms")
+                      for sp in case["spelling"]:
+                          lab("term-kind:" + {"c": "char", "s": "string", "r": "regex(named)", "R": "regex(unnamed)", "t": "typed(char)", "T": "typed(named regex)"}[sp["kind"]])
+          for case in cases[:3]:
+              samples.append({"grammar": case["grammar"]["text"], "class": case["class"], "inputs": [i["text"] for i in case["inputs"]][:8]})
+          if pid == "C07":
+              # results that KEEP views into the caller's buffer: the same agreement (constant evaluation / three run-time buffers / two overloads), plus
+              # "the views point into the caller's buffer and read the right text"
+              texts = gen_c07v_texts(seed, {"quick": 24, "thorough": 200}[tier])
+              vsrc = os.path.join(work, "views.cpp")
+              open(vsrc, "w").write(render_c07v(texts))
+              for cxx in ("g++", "clang++"):
+                  res = compile_and_run(vsrc, cxx)
+                  if not res["compiled"]:
+                      if res.get("timeout"):
+                          notes.append("compile of views.cpp with %s hit the time ceiling (inconclusive)" % cxx)
+                          continue
+                      vp = os.path.join(viol_dir, "C07_compile_views_%s.json" % cxx.replace("+", "x"))
+                      json.dump({"check": pid, "kind": "program07v", "compiler": cxx, "source": open(vsrc).read(), "what": "generated program does not compile", "log": res["log"], "texts": texts}, open(vp, "w"))
+                      errs = [l for l in res["log"].splitlines() if "error" in l][:1]
+                      violations.append(("a program whose parse result keeps string_view lexemes of the caller's buffer does not compile with %s: %s" % (cxx, errs[0][:200] if errs else ""), vp))
+                      continue
+                  got = {}
+                  for ln in res["out"].splitlines():
+                      if ln.startswith("VIEW "):
+                          w = ln.split()
+                          got[int(w[1])] = {f.split("=")[0]: int(f.split("=")[1]) for f in w[2:]}
+                  for k, t in enumerate(texts):
+                      evaluations += 1
+                      want = 2 if t["ok"] else 0
+                      d = got.get(k)
+                      what = None
+                      if d is None:
+                          what = "program produced no result line (crashed?) rc=%s" % res.get("rc")
+                      elif d["ce"] == -1:
+                          what = "parsing a static cstring_buffer and reading the lexeme views the result keeps is not a constant expression (%s)" % cxx
+                      else:
+                          for tag, name in (("ce", "constant evaluation"), ("cs", "cstring_buffer"), ("sb", "string_buffer"), ("sv", "string_view_buffer"), ("cs0", "parse(cstring_buffer)"), ("sb0", "parse(string_buffer)")):
+                              if d[tag] != want:
+                                  what = "%s: %s (%s)" % (name, {0: "a text of the language was rejected", 1: "the lexeme views kept by the result do not point into the caller's buffer / read other text", 2: "a text outside the language was accepted", 3: "parse threw"}[d[tag]], cxx)
+                                  break
+                      if what:
+                          vp = os.path.join(viol_dir, "C07_views_%s_%s.json" % (cxx.replace("+", "x"), hashlib.sha1(t["text"].encode()).hexdigest()[:10]))
+                          json.dump({"check": pid, "kind": "program07v", "compiler": cxx, "what": what, "observed": d, "texts": [t], "source": render_c07v([t])}, open(vp, "w"))
+                          violations.append((what, vp))
+                          continue
+                      if len(t["words"]) >= 2 or not t["ok"]:
+                          nontrivial.add(("views", t["text"]))
+                  lab("views-program:" + cxx)
+    cases = all_cases
+    if pid == "C03":
         # regex::expr<P> constructed at compile time: constexpr match("lit") via probe, run-time match through two buffers
         pats = cases
         jobs = []
@@ -997,6 +1335,14 @@ def run(pid, tier, seed, work, viol_dir, known_ids=()):
                     lab("undeclared-" + m["removed"])
                     lab("compiler:" + cxx)
         samples = [{"grammar": m["grammar"], "removed_from_declaration": "%s %s" % (m["removed"], m["which"])} for m in meta[:5]]
+    if pid == "C07":
+        # the big grammar (state numbers beyond 8 bits): string_view_buffer, string_buffer and cstring_buffer must agree with the python reference and with each other
+        bv, be, bnt, bnotes, blabels = run_big(pid, tier, seed, work, viol_dir)
+        violations += bv; evaluations += be; notes += bnotes
+        for x in bnt:
+            nontrivial.add(x)
+        for kk, vv in blabels.items():
+            labels[kk] = vv
     return (1 if violations else 0), {"evaluations": evaluations, "nontrivial": len(nontrivial), "samples": samples, "labels": labels, "violations": violations, "notes": notes, "wall": time.time() - t0, "programs": len(cases), "excluded_known": excluded}
 
 
@@ -1014,6 +1360,23 @@ def replay(path):
         print(res["log"][-1500:])
         return 1
     print(res["out"][:3000])
+    if d["kind"] == "programbig":
+        K = d.get("K", 24); kws = ["kw%02d" % i for i in range(K)]; ends = ["e%02d" % i if i % 3 else chr(ord('A') + i // 3) for i in range(K)]
+        bad = 0 if any(l.startswith("BIGINFO") for l in res["out"].splitlines()) else 1
+        seen = 0
+        for ln in res["out"].splitlines():
+            if ln.startswith("BIGX ") or ln.startswith("BIGEXC"):
+                bad += 1
+            if ln.startswith("BIG "):
+                seen += 1
+                w = ln.split(); k = int(w[1]); vals = {f.split("=")[0]: int(f.split("=")[1]) for f in w[2:]}
+                want = big_eval(d["texts"][k]["text"], kws, ends)
+                if vals["acc"] != want["acc"] or (want["acc"] and (vals["n"] != want["n"] or vals["h"] != want["h"])) or vals["errs"] != want["errs"]:
+                    bad += 1
+        if seen < len(d["texts"]):
+            bad += 1          # a text without a result line: the program died
+        print("REPLAY %s %s" % (d["check"], "FAIL" if bad else "PASS"))
+        return 1 if bad else 0
     if d["kind"] == "program07v":
         bad = 0
         for ln in res["out"].splitlines():
@@ -1063,6 +1426,11 @@ def replay(path):
                     if a == "EXC" or int(a) != want_acc or (d["check"] in ("C02", "C05") and want_acc and v != want_val) or (d["check"] in ("C09", "C10") and m != inp["messages_hex"]) or (d["check"] == "C10" and g.get("p" + tag) != inp.get("posdigest")) or (d["check"] == "C18" and ((want_acc and v != want_val) or m != inp["messages_hex"])):
                         bad += 1
                         break
+                continue
+            if g is not None and g["ce"].split(":")[0] != "-1" and "cev" in g and g["cev"] != g["ce"]:
+                bad += 1
+                continue
+            if d["check"] == "C16":
                 continue
             if g is None or g["ce"].split(":")[0] == "-1" or int(g["ce"].split(":")[0]) != want_acc or (want_acc and g["ce"].split(":")[1] != want_val):
                 bad += 1
